@@ -87,6 +87,25 @@ def f_sitems(o, idx):
     return sum(idx.get(id(v), -9) + 1 for v in o.s) + 50 * len(o.s)
 
 
+def f_area(o):
+    return o.value * 7 + o.other * 3
+
+
+# while a pickle is restored: {"name": dependency restored first, "attr": property to read in its static handler}
+RESTORE_READ = {}
+
+
+def _static_value_changed(self, new):
+    # an ordinary static change handler that reads the (cached) property, e.g. to keep a log up to date
+    if RESTORE_READ.get("name") == "value":
+        getattr(self, RESTORE_READ["attr"])
+
+
+def _static_other_changed(self, new):
+    if RESTORE_READ.get("name") == "other":
+        getattr(self, RESTORE_READ["attr"])
+
+
 def f_raw(o):
     # sensitive to the type of the value, not only to its equality class
     v = o.raw
@@ -121,6 +140,7 @@ PROPS = {
     "mitems": ("m.items", None),
     "sitems": ("s.items", None),
     "raw": ("raw", f_raw),
+    "area": (["value", "other"], f_area),
 }
 IDX = {}          # id(obj) -> pool index of the case being run (for the identity-dependent getters)
 IDFUNS = {"mitems": f_mitems, "sitems": f_sitems}
@@ -175,6 +195,8 @@ def _tpc(self, name, old, *rest):
     return HasTraits.trait_property_changed(self, name, old, *rest)
 
 
+_ns["_value_changed"] = _static_value_changed
+_ns["_other_changed"] = _static_other_changed
 _ns["trait_property_changed"] = _tpc
 _ns["__module__"] = __name__
 Root = type("Root", (Node,), _ns)
@@ -216,6 +238,7 @@ PATHS = {
     "nested": [["child", "kids", "*", "value"]], "kidchild": [["kids", "*", "child", "value"]],
     "multi": [["value"], ["child", "value"], ["nums", "*"]],
     "mitems": [["m", "*"]], "sitems": [["s", "*"]], "xscalar": [["value"]], "redecl": [["other"]],
+    "area": [["value"], ["other"]],
 }
 # (the "raw" and "chain" shapes have their own view below)
 TCODE = {"value": 1, "other": 2, "child": 3, "kids": 4, "m": 5, "s": 6, "nums": 7}
@@ -396,7 +419,15 @@ def run_case(case):
             elif k == "Copy":
                 mode = op[1]
                 if mode == "pickle":
-                    newpool = pickle.loads(pickle.dumps(pool, op[2]))
+                    if pname == "area":
+                        # the static handler of the dependency that is restored FIRST reads the property during the
+                        # restore; the restoration of the other dependency must flush what it cached
+                        order = [k_ for k_ in pool[0].__getstate__() if k_ in ("value", "other")]
+                        RESTORE_READ.update(name=order[0], attr=attr)
+                    try:
+                        newpool = pickle.loads(pickle.dumps(pool, op[2]))
+                    finally:
+                        RESTORE_READ.clear()
                 elif mode == "deepcopy":
                     newpool = copy.deepcopy(pool)
                 elif mode == "shallow":
@@ -415,7 +446,12 @@ def run_case(case):
                 # a mutation: ["Set", i, trait, v] / list, dict, set operations
                 o = pool[op[1]]
                 matched, _ = snapshot_view(pool[0], vname, idx_of())
-                if k == "SetRaw":
+                if k == "Redeclare":
+                    # the dependency trait is declared again on this instance (add_trait of an existing name keeps
+                    # the notifiers of the old trait): nothing changes, nothing may be lost
+                    touched = ("t", id(o), op[2]) in matched
+                    o.add_trait(op[2], Int(getattr(o, op[2])))
+                elif k == "SetRaw":
                     touched = ("t", id(o), "raw") in matched
                     o.raw = RAW_VALUES[op[2]]()
                 elif k == "Set":
